@@ -250,3 +250,9 @@ def parse_stream(data):
         out.append((bytes(cid) if isinstance(cid, (bytes, bytearray)) else cid, data[pos + 8:pos + 8 + ln]))
         pos += 8 + ln
     return out
+
+
+# [doc: "Drawn waveform chunk"]  32 frames, mono 8-bit signed, 44100 Hz; "SunVox assigns a default waveform"
+DRAWN_WAVEFORM_DEFAULT_BYTES = bytes.fromhex(
+    "009CA6005A89EC2D02EC6FE9029E3C20" "643200CE41623220A688645A3B150036")
+DRAWN_WAVEFORM_DEFAULT = [b - 256 if b >= 128 else b for b in DRAWN_WAVEFORM_DEFAULT_BYTES]
